@@ -2016,3 +2016,7 @@ fn p_remove_from_small_full() {
     assert_eq!(a[0], 260);
     assert_eq!(a[1], 0);
 }
+
+/// Views for external verification tooling (`--cfg droundy_tinyset_verif` only).
+#[cfg(droundy_tinyset_verif)]
+pub mod verif;
